@@ -16,6 +16,12 @@ def leaf_state(lf):
         return list(getattr(lf, 'data', []))
     if k == 'Sequence':
         return getattr(lf, 'i', 0)
+    if k == 'UARTSerializer':
+        return [getattr(lf, 'state', -1), getattr(lf, 'count', -1), getattr(lf, 'txv', -1)]
+    if k == 'UARTDeserializer':
+        return [getattr(lf, 'state', -1), getattr(lf, 'count', -1), getattr(lf, 'state_v', -1), getattr(lf, 'temp', -1)]
+    if k == 'ClockSyncFSM':
+        return getattr(lf, 'state', -1)
     return 0
 
 
